@@ -20,7 +20,7 @@ import re
 import shutil
 import tempfile
 
-from .. import cbi, core, runner
+from .. import cbi, core, runner, trace_cfg
 
 CFG = """SPECIFICATION Spec
 CONSTANTS
@@ -219,6 +219,9 @@ def check_chunk(args):
             write_config(d, table)
             os.chdir(d)
             config._compilers = None
+            tfc = os.path.join(d, "pa.ndjson") if stats["evals"] % 8 == 0 else None
+            tracer = cbi.tracing(tfc)
+            tracer.__enter__()
             tg = tags_of(case)
             modecat = case["modecat"]
             # machinery self-check: the pre-split / pre-matched token fields agree with Python
@@ -287,6 +290,12 @@ def check_chunk(args):
                                   detail=bad[1] + f"\nhistory={[(h['name'], [tok_argv(t) for t in h['argv']]) for h in case['hist']]}",
                                   case=case))
         finally:
+            try:
+                tracer.__exit__(None, None, None)
+                if tfc and os.path.exists(tfc):
+                    stats.setdefault("cfg_events", []).extend(trace_cfg.load_events(tfc, "generated", limit=40))
+            except NameError:
+                pass
             os.chdir(cwd)
             config._compilers = None
             shutil.rmtree(d, ignore_errors=True)
@@ -352,6 +361,9 @@ USER_EXT = {
 }
 
 
+BUILTIN_EVENTS = []
+
+
 def builtin_check(ctx, user=None):
     """Every documented flag combination of the built-in compilers, judged by CompilerCfg.Parse.
     With `user`: the same under a .cbi/config that extends the built-in definitions (CompilerCfg.Extend)."""
@@ -396,7 +408,9 @@ def builtin_check(ctx, user=None):
     if user:
         write_config(d, user)
     config._compilers = None
+    tf = os.path.join(d, "parse_args.ndjson")
     try:
+      with cbi.tracing(tf):
         for k, cmd in enumerate(cmds, start=1):
             argv = []
             for t in cmd["argv"]:
@@ -430,6 +444,8 @@ def builtin_check(ctx, user=None):
                         break
             if bad:
                 ctx.fail("G", ["builtin"], "builtin-configuration-differs", f"{cmd['name']} {argv}: {bad}", cmd)
+      if os.path.exists(tf):
+          BUILTIN_EVENTS.extend(trace_cfg.load_events(tf, "builtin+user" if user else "builtin"))
     finally:
         os.chdir(cwd)
         config._compilers = None
@@ -483,12 +499,25 @@ def run(ctx):
     builtin_check(ctx, user=USER_EXT)
     work = ctx.scratch()
     jobs = [(c, work) for c in runner.chunks(allc, runner.NCPU * 2)]
+    events = list(BUILTIN_EVENTS)
     for lst in runner.pmap(_jobs, jobs, chunk=1):
         for fails, stats in lst:
             ctx.cov["evaluations"] += stats["evals"]
             ctx.cov["distinct_nontrivial"] += stats["nontrivial"]
+            events.extend(stats.get("cfg_events", []))
             for f in fails:
                 ctx.fail(f["layer"], f["tags"], f["symptom"], f["detail"], f["case"])
+    # V: recorded executions of parse_args - the built-in flag combinations above, a sample of the generated
+    # configurations, and every call the repository's own test suite makes - judged by Trace_Cfg.tla
+    from . import C01
+    dirs = []
+    try:
+        for tf, ident in C01.suite_traces(ctx, dirs):
+            events.extend(trace_cfg.load_events(tf, ident))
+    finally:
+        for dd in dirs:
+            shutil.rmtree(dd, ignore_errors=True)
+    trace_cfg.validate(ctx, events, tag="C12cfg")
 
 
 def replay(ctx, path):
